@@ -1,7 +1,7 @@
 # C11 - query results depend only on the data and the statement.
 # spec: specs/query (Query, QueryGen); harness: harness/coordinator/zz_verif_query_test.go
-import json, os, random
-from vcheck import Infra, log
+import copy, json, os
+from vcheck import Infra, log, VERIF
 
 PKG = "coordinator"
 FILES = ["coordinator/zz_verif_query_test.go"]
@@ -12,23 +12,29 @@ BASE2 = 262980 * 3600 * 10**9             # 2000-01-01T12:00:00Z: a multiple of 
 INV = ["TypeOK", "C11_CountIsCardinality", "C11_OrderOfAggregates", "C11_DescIsReverse", "C11_LimitIsWindow",
        "C11_SLimitIsWindow", "C11_FillOnlyFillsGaps", "C11_MergeOK"]
 
-# physical layouts; the first one is the reference (single shard, everything in the cache)
-L_CACHE = {"name": "cache", "nodes": 1, "rf": 1, "shard_dur": "168h", "index": "inmem", "mode": "cache"}
-L_TSM = {"name": "tsm", "nodes": 1, "rf": 1, "shard_dur": "168h", "index": "inmem", "mode": "snapq"}
-L_COMPACTED = {"name": "compacted", "nodes": 1, "rf": 1, "shard_dur": "168h", "index": "tsi1", "mode": "compacted"}
-L_SHARDS = {"name": "shards1h", "nodes": 1, "rf": 1, "shard_dur": "1h", "index": "inmem", "mode": "steps"}
-L_SHARDS_RE = {"name": "shards1h-tsi-reopen", "nodes": 1, "rf": 1, "shard_dur": "1h", "index": "tsi1", "mode": "reopen"}
-L_CLUSTER = {"name": "cluster3rf2", "nodes": 3, "rf": 2, "shard_dur": "1h", "index": "inmem", "mode": "steps"}
-L_CLUSTER2 = {"name": "cluster2rf1", "nodes": 2, "rf": 1, "shard_dur": "2h", "index": "inmem", "mode": "cache"}
-L_CLUSTER3 = {"name": "cluster3rf1", "nodes": 3, "rf": 1, "shard_dur": "1h", "index": "tsi1", "mode": "snapq"}
-L_STEPS = {"name": "steps", "nodes": 1, "rf": 1, "shard_dur": "168h", "index": "inmem", "mode": "steps"}
+# Physical layouts; the first one is the reference (single shard, everything in the cache).
+#  mode cache: snapshot/compact steps of the behaviour ignored; steps: done where the model does them;
+#  snapq: snapshot before every query; compacted: snapshot after every write + full compaction before every
+#  query; reopen: like steps, and every store is closed and reopened (WAL replay) before every query.
+#  shard_units: shard-group duration in model time units (0 = one shard).
+L_CACHE = {"name": "cache", "nodes": 1, "rf": 1, "shard_dur": "168h", "index": "inmem", "mode": "cache", "shard_units": 0}
+L_TSM = {"name": "tsm", "nodes": 1, "rf": 1, "shard_dur": "168h", "index": "inmem", "mode": "snapq", "shard_units": 0}
+L_COMPACTED = {"name": "compacted", "nodes": 1, "rf": 1, "shard_dur": "168h", "index": "tsi1", "mode": "compacted", "shard_units": 0}
+L_STEPS = {"name": "steps", "nodes": 1, "rf": 1, "shard_dur": "168h", "index": "inmem", "mode": "steps", "shard_units": 0}
+L_SHARDS = {"name": "shards1h", "nodes": 1, "rf": 1, "shard_dur": "1h", "index": "inmem", "mode": "steps", "shard_units": 3}
+L_SHARDS_RE = {"name": "shards1h-tsi-reopen", "nodes": 1, "rf": 1, "shard_dur": "1h", "index": "tsi1", "mode": "reopen", "shard_units": 3}
+L_CLUSTER = {"name": "cluster3rf2", "nodes": 3, "rf": 2, "shard_dur": "1h", "index": "inmem", "mode": "steps", "shard_units": 3}
+L_CLUSTER2 = {"name": "cluster2rf1", "nodes": 2, "rf": 1, "shard_dur": "2h", "index": "inmem", "mode": "cache", "shard_units": 6}
+L_CLUSTER3 = {"name": "cluster3rf1", "nodes": 3, "rf": 1, "shard_dur": "1h", "index": "tsi1", "mode": "snapq", "shard_units": 3}
 QUICK_LAYOUTS = [L_CACHE, L_TSM, L_COMPACTED, L_SHARDS, L_SHARDS_RE, L_CLUSTER]
 THOROUGH_LAYOUTS = QUICK_LAYOUTS + [L_STEPS, L_CLUSTER2, L_CLUSTER3]
 
 
-def mc_consts(ctx):
-    return {"SeriesIds": [1, 2], "Fields": ['"v"'], "MaxT": 4, "Vals": [1, 2], "SVals": [0, 1], "MaxBatch": 1,
-            "MaxPoints": ctx.pick(2, 3), "MaxFiles": 2, "Wide": not ctx.quick()}
+def mc_consts(ctx, **kw):
+    c = {"SeriesIds": [1, 2], "Fields": ['"v"'], "MaxT": 3, "Vals": [1, 2], "SVals": [0, 1], "MaxBatch": 1,
+         "MaxPoints": 2, "MaxFiles": 2, "Wide": False}
+    c.update(kw)
+    return c
 
 
 def gen_consts(glen):
@@ -46,52 +52,105 @@ def decorate(behs, seed):
     return out
 
 
+def copies(beh, n):
+    out = []
+    for i in range(n):
+        c = copy.deepcopy(beh)
+        c["id"] = 9100 + i
+        out.append(c)
+    return out
+
+
 def run(ctx):
+    # package coordinator's own tests bind a fixed port in an init function: private network namespace (see c03.py)
     goenv = {"GOFLAGS": "-mod=mod -exec=/verif/lib/netns_exec.sh"}
     layouts = ctx.pick(QUICK_LAYOUTS, THOROUGH_LAYOUTS)
 
-    def replay(behs, label, only_step=-1, max_sigs=4, lays=None):
+    def replay(behs, label, only_step=-1, max_sigs=6, lays=None, workers=2):
         p = ctx.write_json("beh-%s.json" % label, {"behaviours": behs, "layouts": lays or layouts, "unit_ns": UNIT_NS,
-                                                   "max_sigs": max_sigs, "only_step": only_step})
-        return ctx.go_test(PKG, FILES, "^%s$" % TEST, env=dict(goenv, VERIF_IN=p), timeout=2400, label=label)
+                                                   "max_sigs": max_sigs, "only_step": only_step, "workers": workers})
+        return ctx.go_test(PKG, FILES, "^%s$" % TEST, env=dict(goenv, VERIF_IN=p), timeout=3000, label=label)
 
     def confirm(rp):
-        recs, out, rc = replay([rp["behaviour"]], "confirm", only_step=rp["step"], lays=THOROUGH_LAYOUTS)
+        # the owner a coordinator reads a shard from is chosen at random and remote inputs arrive in scheduling
+        # order: a cluster-only difference needs several attempts to show again
+        recs, out, rc = replay(copies(rp["behaviour"], 10), "confirm", only_step=rp["step"], lays=THOROUGH_LAYOUTS, workers=2)
         return any(r.get("k") == "mismatch" for r in recs)
 
     if ctx.replay:
         rp = json.load(open(ctx.replay))["replay"]
-        recs, out, rc = replay([rp["behaviour"]], "replay", only_step=rp["step"], lays=THOROUGH_LAYOUTS)
+        recs, out, rc = replay(copies(rp["behaviour"], 10), "replay", only_step=rp["step"], lays=THOROUGH_LAYOUTS)
         done = ctx.process(recs, out, rc, TEST, None)
         return ctx.finish("model_checking", {"replayed_behaviours": done.get("behaviours", 0)})
 
     sd = ctx.spec_dir("query")
-    # 1. the model: every data set within the bound, every statement of the families of the sanity theorems
-    if not os.environ.get("C11_DEV"):
-        ctx.write_cfg(sd, "MC.cfg", "SpecData", mc_consts(ctx), INV, "Bounded")
-        ctx.tlc_check(sd, "Query", "MC.cfg", workers=8, timeout=ctx.pick(600, 2400))
-        #    layout actions leave the logical data unchanged
-        lc = dict(mc_consts(ctx), MaxBatch=2, MaxPoints=2, MaxFiles=3, Vals=[1, 2], MaxT=1)
+    # 1. the model.  (a) Eval: every data set within the bound x every statement of the families of the sanity
+    #    theorems (count = cardinality, min <= mean/median/first/last <= max, spread, sum = mean*count, DESC is the
+    #    reverse, LIMIT/OFFSET and SLIMIT/SOFFSET are windows, fill only fills gaps, per-shard partial results
+    #    merge to the overall result);  (b) the layout actions leave the logical data unchanged
+    if not os.environ.get("C11_SKIP_MC"):
+        if ctx.quick():
+            # 129 data sets (2 series x 4 instants x 2 values, <= 2 points) x ~300 statements
+            ctx.write_cfg(sd, "MC.cfg", "SpecData", mc_consts(ctx), INV, "Bounded")
+            ctx.tlc_check(sd, "Query", "MC.cfg", workers=8, timeout=1200)
+        else:
+            # 577 data sets (<= 3 points) x the small families; 201 data sets (5 instants) x the wide families
+            ctx.write_cfg(sd, "MC3.cfg", "SpecData", mc_consts(ctx, MaxPoints=3), INV, "Bounded")
+            ctx.tlc_check(sd, "Query", "MC3.cfg", workers=8, timeout=3000)
+            ctx.write_cfg(sd, "MCW.cfg", "SpecData", mc_consts(ctx, MaxT=4, Wide=True), INV, "Bounded")
+            ctx.tlc_check(sd, "Query", "MCW.cfg", workers=8, timeout=3400)
+        lc = dict(mc_consts(ctx), SeriesIds=[1], MaxBatch=ctx.pick(1, 2), MaxPoints=2, MaxFiles=ctx.pick(2, 3), MaxT=1, Wide=False)
         ctx.write_cfg(sd, "MCL.cfg", "Spec", lc, ["TypeOK", "C11_LayoutKeepsData"], "Bounded")
-        ctx.tlc_check(sd, "Query", "MCL.cfg", workers=4, timeout=600, coverage=not ctx.quick())
+        r = ctx.tlc_check(sd, "Query", "MCL.cfg", workers=4, timeout=600, coverage=not ctx.quick())
+        if r.get("zero_coverage"):
+            raise Infra("actions never taken in Query: %s" % r["zero_coverage"])
 
     # 2. (data set, statement, Eval) triples -> every layout of the real engine / cluster
     glen = 16
-    nbeh = ctx.pick(24, 420)
+    nbeh = ctx.pick(24, 300)
     ctx.write_cfg(sd, "Gen.cfg", "GSpec", gen_consts(glen), extra="INVARIANT Emit")
-    behs = ctx.tlc_generate(sd, "QueryGen", "Gen.cfg", num=nbeh, depth=glen + 1, timeout=1200)[:nbeh]
+    behs = ctx.tlc_generate(sd, "QueryGen", "Gen.cfg", num=nbeh, depth=glen + 1, timeout=1800)[:nbeh]
     behs = decorate(behs, ctx.seed)
+    # the representative of the recorded finding is always replayed
+    kn = json.load(open(os.path.join(VERIF, "replays", "C11", "known-slimit-per-shard.json")))["replay"]["behaviour"]
+    behs.append(dict(kn, id=len(behs)))
     pairs = sum(1 for b in behs for s in b["steps"] if s["a"] == "query")
+    feats = {}
+    for b in behs:
+        for s in b["steps"]:
+            if s["a"] != "query":
+                feats["step:" + s["a"]] = feats.get("step:" + s["a"], 0) + 1
+                continue
+            st = s["st"]
+            for k in ("fn:" + st["fn"], "field:" + st["field"], "fill:" + st["fill"], "group:%d" % len(st["group"]),
+                      "desc" if st["desc"] else "asc", "limit" if st["limit"] else "nolimit", "offset" if st["offrows"] else "nooffset",
+                      "slimit" if st["slimit"] else "noslimit", "pred" if st["pred"]["k"] else "nopred",
+                      "time" if st["interval"] else "notime", "time-offset" if st["offset"] else "no-time-offset",
+                      "result:nonempty" if s["res"] else "result:empty"):
+                feats[k] = feats.get(k, 0) + 1
+    if not ctx.quick():
+        missing = [k for k in ["fn:" + f for f in ("raw", "count", "sum", "mean", "min", "max", "first", "last", "spread", "median")] +
+                   ["fill:" + f for f in ("none", "null", "number", "previous", "linear")] +
+                   ["field:both", "field:s", "desc", "limit", "offset", "slimit", "pred", "time-offset", "group:2", "step:snapshot", "step:compact"]
+                   if not feats.get(k)]
+        if missing:
+            raise Infra("generator never produced: %s" % missing)
     log("behaviours: %d, (data set, statement) pairs: %d, layouts: %d" % (len(behs), pairs, len(layouts)))
-    recs, out, rc = replay(behs, "replay")
+    recs, out, rc = replay(behs, "replay", workers=3)
     done = ctx.process(recs, out, rc, TEST, confirm)
     ctx.cov["traces_validated_against_impl"] += done.get("behaviours", 0)
     extra = {k: done.get(k, 0) for k in ("behaviours", "steps", "queries", "queries_nonempty", "evaluations", "eval_equal",
-                                         "layout_equal", "distinct_answers")}
+                                         "layout_equal", "distinct_answers", "slimit_per_shard_deviations")}
     extra["layouts"] = [l["name"] for l in layouts]
+    extra["layout_seconds"] = done.get("layout_seconds", {})
     extra["mismatch_signatures"] = done.get("signatures", {})
+    extra["generated_features"] = feats
+    extra["rule"] = ("a case = (write sequence with overwrites and snapshot/compact steps, statement); evaluations = answers "
+                     "obtained from the real executor over all layouts and nodes; distinct_answers = distinct normalised answers of the reference layout")
     return ctx.finish("model_checking", extra, assumptions=[
-        "bounded reference: <=5 series, 2 fields, 12 instants, values 0..3; numeric accuracy beyond 1e-9 is not judged",
-        "rows of different series with the same timestamp in one ungrouped raw result have no defined order: compared as multisets, LIMIT/OFFSET cutting through such a run is not generated",
-        "writes are placed on the owners chosen by the real meta.Data (CreateShardGroup, ShardFor) directly through tsdb.Store; write routing is C03/C08",
+        "bounded reference: <=5 series (4 of the queried measurement), 2 fields, 12 instants, values 0..3; numeric accuracy beyond 1e-9 is not judged",
+        "rows of different series with the same timestamp in one result series of a raw select have no defined order: compared as multisets; LIMIT/OFFSET cutting through such a run is not generated",
+        "OFFSET without LIMIT and SOFFSET without SLIMIT are documented as unsupported and not generated",
+        "writes are placed on the owners chosen by the real meta.Data (CreateShardGroup, ShardFor) directly through tsdb.Shard.WritePoints; write routing is C03/C08",
+        "SLIMIT/SOFFSET on data spanning several shards: recorded finding C11-slimit-per-shard (answers of such statements on multi-shard layouts are not judged further)",
     ])
